@@ -217,26 +217,30 @@ static void judge_success(Ctx& ctx, const Case& c, bool from_replay) {
   int ct = (int)c.geti("ct"), fr = (int)c.geti("fr"), form = (int)c.geti("form");
   bool pc = c.geti("pc") != 0, rev = c.geti("rev") != 0;
   auto bad = [&](const std::string& claim, const std::string& tag, const std::string& d) { ctx.violation(claim, { tag, "ct" + std::to_string(ct) }, c, d); };
+  const bool noinput = S.empty() && C.empty() && O.empty();
+  if (noinput) ctx.count("cases_without_any_input_path");
   ctx.evaluated(); ctx.count("form_" + std::to_string(form)); ctx.count("ct_" + std::to_string(ct));
   Outcome o = attempt([&](Outcome&) {
     switch (form) {
       case 0: { Clipper64 cl; cl.PreserveCollinear(pc); cl.ReverseSolution(rev); cl.AddSubject(S); cl.AddOpenSubject(O); cl.AddClip(C);
-        Paths64 sol, solo; bool ok = cl.Execute((ClipType)ct, (FillRule)fr, sol, solo);
+        // the output containers are not fresh: whatever they held must not survive the call
+        Paths64 sol{ Path64{ Point64(1, 1), Point64(9, 1), Point64(9, 9) } }, solo{ Path64{ Point64(7, 7), Point64(8, 8) } }; bool ok = cl.Execute((ClipType)ct, (FillRule)fr, sol, solo);
         if (!ok) bad("C11.execute_false", "Clipper64_paths", "Execute returned false");
-        else if (ct == 0 && (!sol.empty() || !solo.empty())) bad("C11.noclip_nonempty", "Clipper64_paths", "NoClip produced a solution");
+        else if ((ct == 0 || noinput) && (!sol.empty() || !solo.empty())) bad("C11.noclip_nonempty", "Clipper64_paths", ct == 0 ? "NoClip produced a solution" : "no input paths, yet the solution is not empty (stale container content)");
         break; }
       case 1: { Clipper64 cl; cl.PreserveCollinear(pc); cl.ReverseSolution(rev); cl.AddSubject(S); cl.AddOpenSubject(O); cl.AddClip(C);
-        PolyTree64 t; Paths64 solo; bool ok = cl.Execute((ClipType)ct, (FillRule)fr, t, solo);
+        PolyTree64 t; t.AddChild(Path64{ Point64(1, 1), Point64(9, 1), Point64(9, 9) }); Paths64 solo{ Path64{ Point64(7, 7), Point64(8, 8) } };
+        bool ok = cl.Execute((ClipType)ct, (FillRule)fr, t, solo);
         if (!ok) bad("C11.execute_false", "Clipper64_tree", "Execute returned false");
-        else if (ct == 0 && (t.Count() || !solo.empty())) bad("C11.noclip_nonempty", "Clipper64_tree", "NoClip produced a solution");
+        else if ((ct == 0 || noinput) && (t.Count() || !solo.empty())) bad("C11.noclip_nonempty", "Clipper64_tree", ct == 0 ? "NoClip produced a solution" : "no input paths, yet the solution is not empty (stale container content)");
         break; }
       case 2: case 3: { double div = c.getd("div", 1.0); int prec = (int)c.geti("prec");
         auto td = [&](const Paths64& pp) { PathsD r; for (auto& p : pp) { PathD q; for (auto& pt : p) q.emplace_back((double)pt.x / div, (double)pt.y / div); r.push_back(q); } return r; };
         ClipperD cl(prec); cl.PreserveCollinear(pc); cl.ReverseSolution(rev); cl.AddSubject(td(S)); cl.AddOpenSubject(td(O)); cl.AddClip(td(C));
-        if (form == 2) { PathsD sol, solo; bool ok = cl.Execute((ClipType)ct, (FillRule)fr, sol, solo);
-          if (!ok) bad("C11.execute_false", "ClipperD_paths", "Execute returned false"); else if (ct == 0 && (!sol.empty() || !solo.empty())) bad("C11.noclip_nonempty", "ClipperD_paths", "NoClip produced a solution"); }
-        else { PolyTreeD t; PathsD solo; bool ok = cl.Execute((ClipType)ct, (FillRule)fr, t, solo);
-          if (!ok) bad("C11.execute_false", "ClipperD_tree", "Execute returned false"); else if (ct == 0 && (t.Count() || !solo.empty())) bad("C11.noclip_nonempty", "ClipperD_tree", "NoClip produced a solution"); }
+        if (form == 2) { PathsD sol{ PathD{ PointD(1.0, 1.0), PointD(9.0, 1.0), PointD(9.0, 9.0) } }, solo{ PathD{ PointD(7.0, 7.0), PointD(8.0, 8.0) } }; bool ok = cl.Execute((ClipType)ct, (FillRule)fr, sol, solo);
+          if (!ok) bad("C11.execute_false", "ClipperD_paths", "Execute returned false"); else if ((ct == 0 || noinput) && (!sol.empty() || !solo.empty())) bad("C11.noclip_nonempty", "ClipperD_paths", "NoClip or no input, yet the solution is not empty"); }
+        else { PolyTreeD t; t.AddChild(PathD{ PointD(1.0, 1.0), PointD(9.0, 1.0), PointD(9.0, 9.0) }); PathsD solo{ PathD{ PointD(7.0, 7.0), PointD(8.0, 8.0) } }; bool ok = cl.Execute((ClipType)ct, (FillRule)fr, t, solo);
+          if (!ok) bad("C11.execute_false", "ClipperD_tree", "Execute returned false"); else if ((ct == 0 || noinput) && (t.Count() || !solo.empty())) bad("C11.noclip_nonempty", "ClipperD_tree", "NoClip or no input, yet the solution is not empty"); }
         if (cl.ErrorCode()) bad("C11.valid_rejected", "ClipperD", "error code " + std::to_string(cl.ErrorCode()) + " on in-range input");
         break; }
       default: { CPaths64 cs = CreateCPathsFromPathsT(S), cc = CreateCPathsFromPathsT(C), co = CreateCPathsFromPathsT(O), o1 = nullptr, o2 = nullptr;
@@ -248,6 +252,7 @@ static void judge_success(Ctx& ctx, const Case& c, bool from_replay) {
     }
   });
   if (o.threw || o.other_exc) bad("C11.valid_rejected", "exception", "exception on valid input: " + o.what);
+  ctx.count("outputs_prefilled_before_execute");
   if (!from_replay) ctx.note_case(c, !S.empty() || !C.empty() || !O.empty());
 }
 
@@ -262,6 +267,7 @@ void vf_case(Ctx& ctx, uint64_t i) {
     int64_t R = (int64_t)1 << e; if (r.coin() && e > 3) R -= r.range(0, R / 4);
     auto mk = [&]() { Paths64 pp = gen::zoo_paths(r, R, 4); if (r.chance(0.5)) pp.push_back(gen::random_poly(r, 0, 0, R, r.irange(3, 12))); if (r.chance(0.2)) for (auto& p : pp) for (auto& pt : p) { if (r.chance(0.3)) pt.x = r.coin() ? R : -R; if (r.chance(0.3)) pt.y = r.coin() ? R : -R; } return pp; };
     c.p64["S"] = mk(); c.p64["C"] = mk(); c.p64["O"] = r.chance(0.4) ? gen::zoo_paths(r, R, 3) : Paths64();
+    if (r.chance(0.03)) { c.p64["S"].clear(); c.p64["C"].clear(); c.p64["O"].clear(); }
     c.seti("ct", r.irange(0, 4)); c.seti("fr", r.irange(0, 3)); c.seti("pc", r.coin()); c.seti("rev", r.coin());
     int prec = r.irange(-8, 8); c.seti("prec", prec); c.setd("div", prec > 0 ? std::pow(10.0, prec) : 1.0);
     judge_success(ctx, c, false);
